@@ -106,6 +106,11 @@ func (ip *IPv4) SerializeTo(b gopacket.SerializeBuffer, opts gopacket.SerializeO
 		if opt.OptionType == 0 || opt.OptionType == 1 {
 			total++
 		} else {
+			// the type and length bytes are part of the option; a shorter
+			// option would be written beyond the space counted for it here.
+			if opt.OptionLength < 2 {
+				return fmt.Errorf("invalid IP option type %v length %d, must be greater than 2", opt.OptionType, opt.OptionLength)
+			}
 			total += int(opt.OptionLength)
 		}
 	}
